@@ -49,10 +49,90 @@ def make(path, which, **kw):
     return data.make_catalog(path, frames()[which], centers(), **kw)
 
 
+# configuration variants "<binning>@<variant>": same trees as <binning>, other scales / other
+# cosmology parameters (two instances of one custom cosmology class compare equal for the
+# library, so nothing but the parameters tells their configurations apart)
+VARIANTS = {
+    "A@s": ("A", dict(rmin=200.0, rmax=2000.0)),
+    "A@k1": ("A", dict(toy_h=0.5)),
+    "A@k2": ("A", dict(toy_h=0.9)),
+}
+_TOY = {}
+
+
+def toy_cosmology(h: float):
+    """A custom cosmology (Hubble law D_C = 3000/h * z Mpc) with one parameter."""
+    if "cls" not in _TOY:
+        from yaw.cosmology import CustomCosmology
+
+        class ToyCosmology(CustomCosmology):
+            def __init__(self, h: float) -> None:
+                self.h = h
+
+            def comoving_distance(self, z):
+                return 3000.0 / self.h * np.asarray(z, dtype=np.float64)
+
+            def angular_diameter_distance(self, z):
+                z = np.asarray(z, dtype=np.float64)
+                return 3000.0 / self.h * z / (1.0 + z)
+
+        _TOY["cls"] = ToyCosmology
+    return _TOY["cls"](h)
+
+
+def base(b: str) -> str:
+    """The binning (= tree cache content) a configuration name stands for."""
+    return VARIANTS[b][0] if b in VARIANTS else b
+
+
 def config_for(b):
     yaw = data.import_yaw()
-    edges, closed = BINNINGS[b]
-    return yaw.Configuration.create(rmin=500.0, rmax=5000.0, edges=edges, closed=closed)
+    edges, closed = BINNINGS[base(b)]
+    kw = dict(rmin=500.0, rmax=5000.0)
+    if b in VARIANTS:
+        extra = dict(VARIANTS[b][1])
+        if "toy_h" in extra:
+            kw["cosmology"] = toy_cosmology(extra.pop("toy_h"))
+        kw.update(extra)
+    return yaw.Configuration.create(edges=edges, closed=closed, **kw)
+
+
+def measure_fresh_process(src_cache, names, aux_dir, scratch_dir) -> dict:
+    """Reference measurements: each in a NEW interpreter on its own fresh copy of
+    the cache, so that nothing a process may keep in memory between calls and
+    nothing on disk can influence them.  name -> digest | ("error", text)"""
+    import subprocess
+    from concurrent.futures import ThreadPoolExecutor
+
+    verif = str(Path(__file__).resolve().parent.parent)
+
+    import shutil
+
+    # private copies of the helper catalogs too (their tree caches are rebuilt by every measurement)
+    auxes = {}
+    for name in names:
+        auxes[name] = Path(scratch_dir) / ("freshaux_" + name.replace("@", "_"))
+        if auxes[name].exists():
+            shutil.rmtree(auxes[name])
+        shutil.copytree(aux_dir, auxes[name])
+
+    def one(name):
+        dst = Path(scratch_dir) / ("fresh_" + name.replace("@", "_"))
+        aux_dir = auxes[name]
+        code = ("import sys, json; sys.path.insert(0, %r); from harness import cachework as cw, data; "
+                "from pathlib import Path; d = data.copy_cache(Path(%r), Path(%r)); print('REFJSON' + json.dumps(cw.measure(d, %r, %r)))"
+                % (verif, str(src_cache), str(dst), name, str(aux_dir)))
+        r = subprocess.run([sys.executable, "-c", code], capture_output=True, text=True, timeout=600)
+        for line in r.stdout.splitlines():
+            if line.startswith("REFJSON"):
+                return name, json.loads(line[7:])
+        return name, ("error", (r.stderr or r.stdout)[-400:])
+
+    with ThreadPoolExecutor(max_workers=8) as ex:
+        out = dict(ex.map(one, names))
+    for d in auxes.values():
+        shutil.rmtree(d, ignore_errors=True)
+    return out
 
 
 def build(cat, b, force=False):
@@ -75,7 +155,12 @@ def measure(cat_dir, b, aux_dir):
         (cf,) = yaw.crosscorrelate(config_for("A"), ref, cat, ref_rand=rnd, max_workers=1)
     else:
         (cf,) = yaw.autocorrelate(config_for(b), cat, rnd, count_rr=False, max_workers=1)
-    return data.corrfunc_fingerprint(cf)
+    return _jsonable(data.corrfunc_fingerprint(cf))
+
+
+def _jsonable(x):
+    """Digest in a form that survives a JSON round trip unchanged (tuples -> lists)."""
+    return json.loads(json.dumps(x))
 
 
 def records(cat_dir):
